@@ -84,6 +84,20 @@ def one_world(args):
             w.faulty_until = t0 + fault["ms"]
         # offer packets on both sides, spread over the faulty period and after it
         sizes = SIZES if scenario not in ("auto", "forced") else [0, 1, 20, 60, 100]
+        if scenario in ("uponly", "downonly", "idle"):
+            # clean path for longer than the 60 s give-up timers: traffic in one direction only (or none at all), then one packet each way
+            for i in range(24):
+                if scenario == "uponly":
+                    f = frame_to_server_side(rng, rng.choice([20, 100, 600])); sent_c.append((w.ms, f)); w.offer_to_client(f)
+                elif scenario == "downonly":
+                    f = frame_to_client(rng, rng.choice([20, 100, 600])); sent_s.append((w.ms, f)); w.offer_to_server(f)
+                t_end = w.ms + 4000
+                w.pump_tun()
+                w.run_until(lambda: w.ms >= t_end or w.c_ret is not None, 4000)
+                w.pump_tun()
+                if w.dead() or w.c_ret is not None:
+                    break
+            nframes = 2
         for i in range(nframes):
             n = rng.choice(sizes)
             if rng.random() < 0.5:
